@@ -28,6 +28,9 @@ def loop_contract(it, fr, node):
     loops = [n for n in ast.walk(fdef) if isinstance(n, (ast.While, ast.For))]
     loops.sort(key=lambda n: (n.lineno, n.col_offset))
     k = loops.index(node) if node in loops else None
+    ov = getattr(it, 'loops_override', None)
+    if ov is not None and ov[0] is fn and k is not None:
+        return ov[1].get(k), k
     c = it.registry.lookup(fn)
     if c is None or k is None:
         return None, k
@@ -122,7 +125,7 @@ def check_body_ensures(it, fr, lc, tag, extra):
 def while_with_invariant(it, node, fr, lc, k):
     I = _I()
     ctx = it.ctx
-    tag = f'{fr.name}/loop{k}'
+    tag = f'{fr.name}{getattr(it, "obl_suffix", "") if getattr(it, "loops_override", None) and it.loops_override[0] is getattr(fr, "fn", None) else ""}/loop{k}'
     extra = {}
     if lc.entry_snapshot:
         extra['entry'] = it.models_mod._deepcopy(it, V.SObj(object, dict(fr.locals), frozen=True))
@@ -220,7 +223,7 @@ def for_with_invariant(it, node, fr, seq, lc, k):
     if lc is None or lc.invariant is None:
         raise EngineError(f'{fr.name}: for loop over a symbolic-length list needs a loop contract '
                           f'(loop {k})')
-    tag = f'{fr.name}/loop{k}'
+    tag = f'{fr.name}{getattr(it, "obl_suffix", "") if getattr(it, "loops_override", None) and it.loops_override[0] is getattr(fr, "fn", None) else ""}/loop{k}'
     from .models import EnumSeq, SRange
     enum_start = None
     if isinstance(seq, EnumSeq):
